@@ -549,3 +549,85 @@ def b6(ctx):
                'reset(key, value) skips the UPDATE of the Settings table on some path although update is requested '
                '(e.g. when the per-handle cached attribute already equals the value): a setting changed by another '
                'handle in between is silently kept', f.loc(), wit)]
+
+
+# ---------------------------------------------------------------------- I3
+def _bounded_eval(v, m, lens):
+    """Concrete value of an abstract value for maxlen m and the recorded lengths; raises KeyError if unknown."""
+    if v.is_const:
+        return v.val
+    if v.k == 'ret' and v.a[0] in lens:
+        return lens[v.a[0]]
+    if v.k == 'selfattr' and v.a[1] in ('_maxlen', 'maxlen'):
+        return m
+    if v.k == 'not':
+        return not _bounded_eval(v.a[0], m, lens)
+    if v.k == 'term' and v.a[0] in ('Add', 'Sub') and len(v.a[1]) == 2:
+        a, b = (_bounded_eval(x, m, lens) for x in v.a[1])
+        return a + b if v.a[0] == 'Add' else a - b
+    if v.k == 'cmp' and len(v.a[0]) == 1:
+        a, b = (_bounded_eval(x, m, lens) for x in v.a[1])
+        op = v.a[0][0]
+        if op in ('Is', 'IsNot'):
+            r = (a is b) if not isinstance(a, float) else (a == b)
+            return r if op == 'Is' else not r
+        return {'Lt': a < b, 'LtE': a <= b, 'Gt': a > b, 'GtE': a >= b, 'Eq': a == b, 'NotEq': a != b}[op]
+    raise KeyError(v.k)
+
+
+@rule('I3', floor=2, title='Deque.append/appendleft keep the length at min(n + 1, maxlen) for every maxlen including 0')
+def i3(ctx):
+    """Decided by running every enumerated path of the method on the finite abstraction (maxlen, current length) in
+    {0, 1, 3, inf} x {0..maxlen}: the branch tests of a path are evaluated on the counters, a push adds one, a pop
+    removes one.  collections.deque(maxlen=0) discards everything."""
+    obs = []
+    INF = float('inf')
+    for meth in ('append', 'appendleft'):
+        f = ctx.method('Deque', meth)
+        ok, why, decided = True, '', 0
+        undecidable = False
+        for m in (0, 1, 3, INF):
+            for n in range(0, 4 if m == INF else int(m) + 1):
+                feasible = 0
+                for p in ctx.paths(f, 'plain'):
+                    if p.kind not in ('return', 'next'):
+                        continue
+                    cur, lens, good = n, {}, True
+                    try:
+                        for e in p.trace:
+                            if e.kind == 'CALL':
+                                t = e.d['targets'][0]
+                                if e.d.get('inlined'):
+                                    continue
+                                if t.name == 'push':
+                                    cur += 1
+                                elif t.name in ('pop', 'popleft', 'pull') and t.cls in ('Deque', 'Cache'):
+                                    cur = max(0, cur - 1)
+                                elif t.name == '__len__':
+                                    lens[e.seq] = cur
+                            elif e.kind == 'TEST':
+                                val = _bounded_eval(e.d['val'], m, lens)
+                                if bool(val) != bool(e.d['truth']):
+                                    good = False
+                                    break
+                    except (KeyError, TypeError):
+                        undecidable = True
+                        good = False
+                    if not good:
+                        continue
+                    feasible += 1
+                    decided += 1
+                    want = min(n + 1, m)
+                    if cur != want:
+                        ok = False
+                        why = 'with maxlen=%s and %d items, %s leaves %s items (collections.deque leaves %s)' % (
+                            m, n, meth, cur, want)
+                if feasible == 0 and not undecidable:
+                    ok, why = False, 'no path of %s is feasible for maxlen=%s with %d items' % (meth, m, n)
+        if undecidable:
+            # a branch condition outside the abstraction: no verdict for this shape (never an alarm)
+            obs.append(Ob('I3', 'Deque.%s/bounded' % meth, True, 'not decided: a branch test is outside the '
+                          '(maxlen, length) abstraction', f.loc(), nontrivial=False))
+        else:
+            obs.append(Ob('I3', 'Deque.%s/bounded' % meth, ok and decided > 0, 'Deque.%s: %s' % (meth, why), f.loc()))
+    return obs
